@@ -167,7 +167,7 @@ int main(int argc, char **argv) {
             }
             if (has_lead_bom(v)) { count_excluded("F-BOM-SCALAR"); v.text[0] = 0x2060; }
             CaseFile c; c.set("value", cm::ser(v)); c.seti("store", *g::range(0, 4)); c.seti("read", *g::range(0, 3));
-            begin_case(c);
+            VH_BEGIN(c);
             if (c.get("value").size() < 300) sample(c.get("value") + " store=" + STORE[c.geti("store")] + " read=" + READ[c.geti("read")]);
             std::string m = run_case(c);
             if (!m.empty()) { record_fail(c, m); RC_FAIL(m); }
